@@ -172,6 +172,33 @@ theorem cpython_buffered_explicit_save {α : Type} (env : Env α) (vs : List Val
     simp [BFile.empty]
   exact read_disk_cut env vs fl hgood _ hd n
 
+/-- the states written by the first `j` hooks are an initial segment of the states written by all of them -/
+private theorem written_take (evs : List Event) (j : Nat) :
+    written (evs.take j) = (written evs).take (written (evs.take j)).length := by
+  have h : written evs = written (evs.take j) ++ written (evs.drop j) := by
+    rw [← written_append, List.take_append_drop]
+  rw [h, List.take_left']
+  rfl
+
+/-- **C37 (complete at any moment — one hypothesis for the whole run).** It is enough to know that the states the WHOLE hook
+    sequence writes are good records (`Good … (written evs) fl`): then after EVERY hook `j` the stream file reads back, cleanly,
+    as exactly the flows written so far. (`stream_file_complete_after_each_hook` asked for this knowledge hook by hook.) -/
+theorem stream_file_complete_at_every_hook {α : Type} (env : Env α) (evs : List Event) (fl : List α)
+    (hgood : Good env 0 (written evs) fl) (j : Nat) :
+    readAll env (run (evs.take j)) = (fl.take (written (evs.take j)).length, .clean) := by
+  apply stream_file_complete_after_each_hook env evs j
+  have hg := Good.take env (written evs) fl 0 (written (evs.take j)).length hgood
+  rw [← written_take evs j] at hg
+  exact hg
+
+/-- … and the same for what the operating system holds, with the buffer and the flush points inside the model -/
+theorem stream_disk_complete_at_every_hook {α : Type} (env : Env α) (evs : List Event) (fl : List α)
+    (hgood : Good env 0 (written evs) fl) (ks : List Nat) (j : Nat) :
+    readAll env (BFile.empty.runOps (hookOps (evs.take j) ks)).disk
+      = (fl.take (written (evs.take j)).length, .clean) := by
+  rw [hook_boundary_flushed]
+  exact stream_file_complete_at_every_hook env evs fl hgood j
+
 -- ------------------------------------------------------------------------------------------------
 -- non-vacuity: a concrete two-record file, an environment for which `Good` holds, and what cuts of it read as
 -- ------------------------------------------------------------------------------------------------
